@@ -16,6 +16,8 @@ run_one() { # name expect dir [property whose check is run]
       if [ $rc -eq 0 ]; then verdict="ok(silent)"; else verdict="FALSE-ALARM($rules rc=$rc)"; fi
     elif [ "$expect" = "unreached" ]; then
       if [ $rc -eq 0 ]; then verdict="documented-miss(out of static reach, see DESIGN.md)"; else verdict="ok(now caught by $rules)"; fi
+    elif [ "$expect" = "undecided" ]; then
+      if [ $rc -eq 2 ]; then verdict="ok(check fails: undecided)"; elif [ $rc -eq 1 ]; then verdict="ok(now caught by $rules)"; else verdict="MISSED(rc=$rc)"; fi
     elif [ "$expect" = "any" ]; then
       if [ $rc -eq 1 ]; then verdict="ok(caught by $rules)"; else verdict="MISSED(rc=$rc)"; fi
     else
